@@ -271,10 +271,12 @@ def loop_of_next(body, next_call):
     sb, m, els = arms[0]
     some_bb = m.get(1, els); none_bb = m.get(0, els)
     loops = body.loops()
+    best = None
     for h, blocks in loops.items():
-        if next_call.bb in blocks:
-            return h, some_bb, none_bb, blocks
-    return None
+        if next_call.bb in blocks and (best is None or len(blocks) < len(best[1])):
+            best = (h, blocks)
+    if best is None: return None
+    return best[0], some_bb, none_bb, best[1]
 
 
 def must_pass(body, start, targets, via, stop_ok=()):
@@ -437,7 +439,10 @@ def f64_const(v):
 TRANSPARENT = re.compile(r'::(as_ref|as_mut|as_deref|deref|deref_mut|branch|with_context|context|ok_or|ok_or_else|unwrap|expect|clone|cloned|copied|into_owned|borrow|as_slice|into|from)(::<.*>)?$')
 
 
-def access_path(body, operand, depth=12):
+TRANSPARENT_NOCLONE = re.compile(r'::(as_ref|as_mut|as_deref|deref|deref_mut|branch|with_context|context|ok_or|ok_or_else|unwrap|expect|borrow|as_slice)(::<.*>)?$')
+
+
+def access_path(body, operand, depth=12, transparent=None):
     """fields crossed when following the unique-definition chain of an operand backwards through
     plain copies, references and transparent adaptors (`as_ref`, `?`, `deref`, `with_context`, ...).
     Flow-sensitive in the sense that only single-definition locals are followed.  Returns
@@ -460,7 +465,7 @@ def access_path(body, operand, depth=12):
             return fields, l, calls
         else:
             nm = d['r'] or d['f']
-            if TRANSPARENT.search(strip_generics_tail(nm)) and d['args'] and d['args'][0]['k'] in ('copy', 'move'):
+            if (transparent or TRANSPARENT).search(strip_generics_tail(nm)) and d['args'] and d['args'][0]['k'] in ('copy', 'move'):
                 calls.append(nm); pl = d['args'][0]['pl']; continue
             calls.append(nm)
             return fields, l, calls
